@@ -306,7 +306,19 @@ def vd_new(ex, c, a, d):
     return ListV((), d or "VecDeque<?>")
 
 
+def opt_unwrap_or_default_set(ex, c, a, d):
+    """Option<HashSet/HashMap>::unwrap_or_default"""
+    o = a[0]
+    if not isinstance(o, EnumV):
+        return ENV_PASS
+    some = o.disc == 1 if isinstance(o.disc, int) else ex.decide(T.eq(o.disc, 1))
+    if some:
+        return o.payload(1)[0]
+    return MapV((), d or "HashSet", "Set<" in c)
+
+
 EXTRAS = [
+    (rx(r"^Option::<(?:std::collections::)?(?:Hash|BTree)(?:Map|Set)<.*>>::unwrap_or_default$"), opt_unwrap_or_default_set),
     (rx(r" as (?:std::iter::|core::iter::)?Iterator>::unzip::<"), it_unzip),
     (rx(r"^<(?:std::collections::)?(?:VecDeque|Vec)<.*> as Extend<.*>>::extend::<"), coll_extend),
     (rx(r"VecDeque::<.*>::pop_front$"), vd_pop_front),
